@@ -117,6 +117,22 @@ def plinear_single(p):
     return a, c, k
 
 
+def cstr(v):
+    """compact constant: k*2^e for large multiples of powers of two"""
+    if abs(v) < 2**32:
+        return str(v)
+    e = (v & -v).bit_length() - 1
+    k = v >> e
+    if e >= 16:
+        return ('2^%d' % e) if k == 1 else ('-2^%d' % e if k == -1 else '%d*2^%d' % (k, e))
+    for d in (1, -1, 2, -2):
+        w = v + d
+        e = (w & -w).bit_length() - 1
+        if e >= 32 and abs(w >> e) < 2**16:
+            return '(%s%+d)' % (cstr(w), -d)
+    return str(v)
+
+
 class Atoms:
     """intern table of atoms; descriptors are hashable tuples"""
 
@@ -141,8 +157,26 @@ class Atoms:
         self.desc.append(('fresh', tag, i))
         return i
 
+    short = False           # diagnostics: print compound atoms as t<index> (see legend())
+
+    def legend(self, p, seen=None):
+        """definitions of the compound atoms occurring in p (for short mode)"""
+        seen = {} if seen is None else seen
+        for m in p:
+            for a in m:
+                d = self.desc[a]
+                if a in seen or d[0] not in ('tdiv', 'fdiv'):
+                    continue
+                seen[a] = None
+                self.legend(pthaw(d[1]), seen)
+                self.legend(pthaw(d[2]), seen)
+                seen[a] = '%s(%s, %s)' % (d[0], self.pstr(pthaw(d[1])), self.pstr(pthaw(d[2])))
+        return seen
+
     def name(self, a):
         d = self.desc[a]
+        if self.short and d[0] in ('tdiv', 'fdiv'):
+            return 't%d' % a
         if d[0] == 'sym':
             return d[1]
         if d[0] == 'fresh':
@@ -162,5 +196,5 @@ class Atoms:
                 parts.append(str(v))
             else:
                 ms = '*'.join(self.name(a) for a in m)
-                parts.append(ms if v == 1 else ('-' + ms if v == -1 else '%d*%s' % (v, ms)))
+                parts.append(ms if v == 1 else ('-' + ms if v == -1 else '%s*%s' % (cstr(v) if self.short else v, ms)))
         return ' + '.join(parts).replace('+ -', '- ')
